@@ -193,11 +193,14 @@ def cmd_run_wt(mid, tier="quick"):
     verdict = "caught" if rc == 1 and any(ln.startswith("VIOLATION") for ln in lines) else \
         ("MISSED" if rc == 0 else f"error rc={rc}")
     with_input = verdict == "caught" and "no-failing-input-found" not in " ".join(lines[:1])
-    if not benign:
+    if benign:
+        meta.setdefault("check_results", {})[tier] = {
+            "verdict": "silent" if verdict == "MISSED" else "ALARM", "output": lines[:4]}
+    else:
         meta.setdefault("check_results", {})[tier] = {
             "verdict": verdict, "with_failing_input": with_input, "output": lines[:4]}
-        with open(os.path.join(d, "meta.json"), "w") as f:
-            json.dump(meta, f, indent=1)
+    with open(os.path.join(d, "meta.json"), "w") as f:
+        json.dump(meta, f, indent=1)
     tag = ("silent (ok)" if verdict == "MISSED" else "ALARM on a benign rewrite") if benign else \
         f"{verdict}{' (failing input)' if with_input else ''}"
     print(f"{mid} [{tier}]: {tag}", flush=True)
